@@ -75,10 +75,26 @@ func (r *Runner) unsyncedOf(f *vos.MFile, pred func(op int) bool) (total int, en
 		if pred != nil && !pred(e.Op) {
 			continue
 		}
-		total += len(e.Data)
+		total += len(e.Data) - blockTailPadding(e)
 		entries++
 	}
 	return
+}
+
+// blockTailPadding returns the number of leading bytes of a write that are block-tail padding: the write starts
+// within 7 bytes of the end of a 32 KiB block (no room for a chunk header) and those bytes are zeros. Padding is
+// not part of any record, and the engine's own sync accounting is in record bytes.
+func blockTailPadding(e *vos.Entry) int {
+	rem := int(blockSz - e.Off%blockSz)
+	if rem > 7 || rem > len(e.Data) {
+		return 0
+	}
+	for _, b := range e.Data[:rem] {
+		if b != 0 {
+			return 0
+		}
+	}
+	return rem
 }
 
 func (r *Runner) checkAllSynced(when string) {
@@ -144,8 +160,8 @@ func (r *Runner) checkSyncPolicy(i int, op *Op) {
 		total := 0
 		for _, n := range r.dataFiles("db") {
 			f := r.FS.Live.File(n)
-			tot, ents := r.unsyncedOf(f, plain)
-			total += tot - 7*ents // block-tail padding is not counted (the engine's own unit, the lenient reading)
+			tot, _ := r.unsyncedOf(f, plain) // block-tail padding is not counted (record bytes: the engine's own unit)
+			total += tot
 		}
 		if total >= int(r.Cfg.BPS) {
 			r.fail("threshold-exceeded", "", "SyncStrategy Threshold(%d): after %s at least %d bytes appended by acknowledged Put/Delete are unflushed", r.Cfg.BPS, op.K, total)
